@@ -316,7 +316,10 @@ def whole_model_tie(rows):
             g = runs_of(go, cont, "same")
             if not g or "valid" not in g[0]:
                 continue
-            unres = any(t.startswith(("unresolvedReferences", "invalidRef")) for t in rule_tags(g[0].get("errors", [])))
+            unres = any(t.startswith(("unresolvedReferences", "invalidRef")) for t in rule_tags(g[0].get("errors", []))) \
+                or any(e.startswith("could not resolve reference in ") for e in g[0].get("errors", []))
+            # (the second form comes from the inheritance walks: a $ref inside a schema whose target exists but is not a schema,
+            #  e.g. "#/parameters/P1" - go-openapi/spec's resolver refuses it, the driver's local lookup finds the target)
             if unres == bool(m.get("localRefsOk")):
                 continue   # the oracle (go-openapi/spec's resolver) and the driver's local resolution disagree on this document
             if any(_PARAM_REVALIDATION.search(e) for e in g[0].get("errors", [])):
